@@ -44,6 +44,20 @@ def run(res):
             cs.append({"args": base + ["--policy", p], "key_args": base, "sets": s, "n": n, "policy": p})
         groups.append((obsfam.key_of(cs[0]), cs))
 
+    # lagging consumer with recon enabled: the recon pool (18 objects for <= 2 logical processors) fills up and the encoder
+    # blocks on it; whatever the application retrieves later must still be the same pictures.  Seeded delays at the lock /
+    # semaphore operations (also in the application thread) widen the windows around the hand-off.
+    for n, w, h in ((50, 64, 64), (40, 192, 128)):
+        base = ["-n", str(n), "-w", str(w), "-h", str(h)]
+        cs = []
+        for i, p in enumerate(["each", "none", "every:25", "none", "every:19", "none"]):
+            args = base + ["--policy", p]
+            if i:
+                # delays only in the application thread (target 1), only in the library threads (2), or everywhere (0)
+                args += ["--perturb", "%d:%d:%d:%d" % (rng.randrange(1, 10 ** 6), 900, 3000, [1, 1, 2, 1, 0][i - 1])]
+            cs.append({"args": args, "key_args": base + ["lag"], "sets": {"enc_mode": 8, "recon_enabled": 1, "logical_processors": 2}, "n": n, "policy": p})
+        groups.append((obsfam.key_of(cs[0]), cs))
+
     def known(r, kind):
         return {"kind": kind, "policy": r["case"]["policy"].split(":")[0], "recon": int(r["case"]["sets"].get("recon_enabled", 0))}
     obsfam.run_groups(res, groups, timeout=120, what="C27 independence of call pacing", known_key_fn=known)
